@@ -101,7 +101,11 @@ def run(tier, seed, rep):
         hill = rnd.random() < 0.5
         if sep and all(v == 0 for v in c.values()):
             continue
-        o, r_ = call(lambda: (pp.write_chem_formula(dict(c), sep=sep, hill_order=hill),))
+        arg = dict(c)     # the caller's composition object: written twice, must stay what it was
+        call(lambda: pp.write_chem_formula(arg, sep=sep, hill_order=hill))
+        o, r_ = call(lambda: (pp.write_chem_formula(arg, sep=sep, hill_order=hill),))
+        if o == "ret" and arg != c:
+            o = "argument_changed"
         ev = {"tid": f"f{i}", "k": "formula_rt", "comp": pairs(c), "sep": sep, "hill": hill, "out": o, "text": "", "parsed": [],
               "massOk": False, "massText": [0, 0], "massComp": [0, 0]}
         if o == "ret":
